@@ -1,7 +1,8 @@
 //! C18 — file built-ins: operation histories run through the real interpreter in a scratch directory,
 //! compared with (a) the Lean model `RbModel.Files` (outputs, error codes, bytes on disk) and (b) independent
 //! property oracles written here (round trips, APPEND prefix, PUT/GET table, handle protocol, console = file
-//! splitting).
+//! splitting; several FIELD lists on one RANDOM handle: byte-level record table + the bytes on disk, with
+//! shrinking of a failing history).
 
 use std::collections::HashMap;
 use std::path::PathBuf;
@@ -390,6 +391,7 @@ fn block_matches(op: &Op, block: &[u8], out: &str) -> bool {
 // ---------------------------------------------------------------------------------------------
 // cases
 
+#[derive(Default)]
 struct Case {
     family: &'static str,
     init: Init,
@@ -400,6 +402,15 @@ struct Case {
     oracle: Vec<Option<String>>,
     /// property-level expectation for the final directory listing
     oracle_listing: Option<String>,
+    /// FIELD families: what each expectation is about (signature of a failure), parallel to `oracle`
+    labels: Vec<&'static str>,
+    /// FIELD families: input-distribution keys of the case
+    tags: Vec<String>,
+    /// FIELD families: `(op index of a show, file, byte offset, width)` — after the last PUT, what a GET put
+    /// into a variable must be that slice of the bytes found on disk after the run (zero filled)
+    disk_checks: Vec<(usize, u8, usize, usize)>,
+    /// FIELD families: the plan the case was built from (for shrinking)
+    plan: Option<FPlan>,
 }
 
 impl Case {
@@ -785,6 +796,7 @@ fn round_trip_case(rng: &mut Rng) -> Case {
         trap: true,
         oracle,
         oracle_listing: Some(oracle_listing),
+        ..Default::default()
     }
 }
 
@@ -836,7 +848,7 @@ fn put_get_case(rng: &mut Rng) -> Case {
             }
         }
     }
-    Case { family: "put-get", init: vec![], stdin: vec![], ops, trap: false, oracle, oracle_listing: None }
+    Case { family: "put-get", init: vec![], stdin: vec![], ops, trap: false, oracle, oracle_listing: None, ..Default::default() }
 }
 
 /// Console INPUT / LINE INPUT on stdin bytes, and the file forms on a file with the same bytes: the two
@@ -849,6 +861,586 @@ fn console_pair(rng: &mut Rng) -> (Vec<u8>, Vec<bool>) {
     (bytes, reads)
 }
 
+// ---- FIELD families: several FIELD lists on one RANDOM handle ----------------------------------------
+//
+// The reference below is the property, written without looking at the Lean model: a RANDOM file is an
+// array of records of LEN bytes; `PUT #h, n` stores, from the start of record n, the variables of the
+// handle's current FIELD list (the list of the latest FIELD statement, or the first list that holds the
+// variable of the latest LSET), each padded with zero bytes or cut to its width; `GET #h, n` gives EVERY
+// variable of EVERY FIELD list of the handle the bytes of record n at its offset and width (a variable
+// that occurs more than once takes the slice of its last occurrence, lists in FIELD order); bytes never
+// written read as zero (anchored in io.rs get_record "zero out missing bytes" and the zero-filled gap of a
+// write past the end; the English statement of C18 is silent about records never PUT, so those
+// expectations carry their own signature `get-unwritten`).
+
+#[derive(Clone, Debug)]
+enum FAct {
+    Field { h: u32, list: Vec<(u32, u8)> },
+    Lset { v: u8, val: Vec<u8> },
+    Put { h: u32, n: u32 },
+    Get { h: u32, n: u32 },
+}
+
+#[derive(Clone, Debug, Default)]
+struct FPlan {
+    family: &'static str,
+    /// (handle, plain name index, record length), opened FOR RANDOM in this order before anything else
+    handles: Vec<(u32, u8, u32)>,
+    acts: Vec<FAct>,
+}
+
+struct FRefHandle {
+    h: u32,
+    name: u8,
+    len: usize,
+    lists: Vec<Vec<(u32, u8)>>,
+    current: Option<usize>,
+    file: Vec<u8>,
+    /// per byte of the file: written by some PUT (false = gap / never written)
+    written: Vec<bool>,
+    max_rec: u32,
+    touched: bool,
+}
+
+impl FRefHandle {
+    fn vars(&self) -> Vec<u8> {
+        let mut vs: Vec<u8> = vec![];
+        for l in &self.lists {
+            for (_, v) in l {
+                if !vs.contains(v) {
+                    vs.push(*v);
+                }
+            }
+        }
+        vs
+    }
+}
+
+/// Builds the program and the expectations of a plan; `None` when the plan contains a step the property
+/// says nothing about (an error: FIELD wider than the record, LSET of a variable that is in no FIELD list
+/// or in the lists of two handles, PUT before any FIELD, record number 0, a handle that is not open).
+fn build_fields_case(plan: &FPlan) -> Option<Case> {
+    let mut hs: Vec<FRefHandle> = vec![];
+    let mut ops: Vec<Op> = vec![];
+    let mut oracle: Vec<Option<String>> = vec![];
+    let mut labels: Vec<&'static str> = vec![];
+    let mut tags: Vec<String> = vec![];
+    let mut disk_checks: Vec<(usize, u8, usize, usize)> = vec![];
+    let mut vars: HashMap<u8, Vec<u8>> = HashMap::new();
+    for (h, name, len) in &plan.handles {
+        if *len == 0 || hs.iter().any(|x| x.h == *h || x.name == *name) {
+            return None;
+        }
+        hs.push(FRefHandle {
+            h: *h,
+            name: *name,
+            len: *len as usize,
+            lists: vec![],
+            current: None,
+            file: vec![],
+            written: vec![],
+            max_rec: 0,
+            touched: false,
+        });
+        ops.push(Op::Open { h: *h, n: Nm::P(*name), m: Md::R, len: *len });
+        oracle.push(some("ok"));
+        labels.push("open");
+    }
+    // GET + the print of every variable of every list of the handle; `final_pass` = no PUT follows
+    fn get_and_show(
+        hd: &FRefHandle,
+        n: u32,
+        vars: &mut HashMap<u8, Vec<u8>>,
+        ops: &mut Vec<Op>,
+        oracle: &mut Vec<Option<String>>,
+        labels: &mut Vec<&'static str>,
+        tags: &mut Vec<String>,
+        disk_checks: &mut Vec<(usize, u8, usize, usize)>,
+        final_pass: bool,
+    ) {
+        let off = (n as usize - 1) * hd.len;
+        let byte = |j: usize| hd.file.get(off + j).copied().unwrap_or(0);
+        let was_written = |j: usize| hd.written.get(off + j).copied().unwrap_or(false);
+        let n_written = (0..hd.len).filter(|j| was_written(*j)).count();
+        let label = if n_written == 0 {
+            "get-unwritten"
+        } else if n_written == hd.len {
+            "get-written"
+        } else {
+            "get-partly-written"
+        };
+        if !final_pass {
+            tags.push(format!("fields.{}", label));
+        }
+        ops.push(Op::Get { h: hd.h, n });
+        oracle.push(some("ok"));
+        labels.push("get");
+        // where each variable's value comes from: its last occurrence
+        let mut place: HashMap<u8, (usize, usize)> = HashMap::new();
+        for l in &hd.lists {
+            let mut start = 0usize;
+            for (w, v) in l {
+                place.insert(*v, (start, *w as usize));
+                start += *w as usize;
+            }
+        }
+        for (v, (start, w)) in &place {
+            vars.insert(*v, (0..*w).map(|j| byte(start + j)).collect());
+        }
+        for v in hd.vars() {
+            let (start, w) = place[&v];
+            if final_pass {
+                disk_checks.push((ops.len(), hd.name, off + start, w));
+            }
+            ops.push(Op::Show(v));
+            oracle.push(Some(out_v(&vars[&v])));
+            // a variable whose slice was never written takes the `get-unwritten` signature
+            let slice_written = (0..w).filter(|j| was_written(start + *j)).count();
+            labels.push(if slice_written == 0 { "get-unwritten" } else if slice_written == w { "get-written" } else { "get-partly-written" });
+        }
+    }
+    for act in &plan.acts {
+        match act {
+            FAct::Field { h, list } => {
+                let hd = hs.iter_mut().find(|x| x.h == *h)?;
+                let total: u32 = list.iter().map(|(w, _)| *w).sum();
+                if list.is_empty() || list.iter().any(|(w, _)| *w == 0) || total as usize > hd.len {
+                    return None;
+                }
+                if hd.touched {
+                    tags.push("fields.field-after-put-or-get".into());
+                }
+                hd.current = Some(hd.lists.len());
+                hd.lists.push(list.clone());
+                ops.push(Op::Field { h: *h, fields: list.clone() });
+                oracle.push(some("ok"));
+                labels.push("field");
+            }
+            FAct::Lset { v, val } => {
+                let holders: Vec<usize> =
+                    (0..hs.len()).filter(|i| hs[*i].lists.iter().any(|l| l.iter().any(|(_, u)| u == v))).collect();
+                if holders.len() != 1 {
+                    return None;
+                }
+                let hd = &mut hs[holders[0]];
+                let idx = hd.lists.iter().position(|l| l.iter().any(|(_, u)| u == v))?;
+                if hd.current != Some(idx) {
+                    tags.push("fields.lset-changes-current-list".into());
+                }
+                hd.current = Some(idx);
+                vars.insert(*v, val.clone());
+                ops.push(Op::Lset { v: *v, val: val.clone() });
+                oracle.push(some("ok"));
+                labels.push("lset");
+            }
+            FAct::Put { h, n } => {
+                let hd = hs.iter_mut().find(|x| x.h == *h)?;
+                if *n == 0 {
+                    return None;
+                }
+                let list = hd.lists.get(hd.current?)?.clone();
+                let mut bytes: Vec<u8> = vec![];
+                for (w, v) in &list {
+                    let mut b = vars.get(v).cloned().unwrap_or_default();
+                    b.resize(*w as usize, 0);
+                    bytes.extend(b);
+                }
+                let off = (*n as usize - 1) * hd.len;
+                if hd.file.len() < off + bytes.len() {
+                    hd.file.resize(off + bytes.len(), 0);
+                    hd.written.resize(off + bytes.len(), false);
+                }
+                hd.file[off..off + bytes.len()].copy_from_slice(&bytes);
+                for j in 0..bytes.len() {
+                    hd.written[off + j] = true;
+                }
+                if bytes.len() < hd.len {
+                    tags.push("fields.put-shorter-than-record".into());
+                }
+                hd.max_rec = hd.max_rec.max(*n);
+                hd.touched = true;
+                ops.push(Op::Put { h: *h, n: *n });
+                oracle.push(some("ok"));
+                labels.push("put");
+            }
+            FAct::Get { h, n } => {
+                let hd = hs.iter_mut().find(|x| x.h == *h)?;
+                if *n == 0 {
+                    return None;
+                }
+                hd.touched = true;
+                hd.max_rec = hd.max_rec.max(*n);
+                let hd = hs.iter().find(|x| x.h == *h)?;
+                get_and_show(hd, *n, &mut vars, &mut ops, &mut oracle, &mut labels, &mut tags, &mut disk_checks, false);
+            }
+        }
+    }
+    // closing pass: every record up to one past the last one used, through every handle
+    for hd in &hs {
+        if hd.lists.is_empty() {
+            continue;
+        }
+        for n in 1..=hd.max_rec.min(6) + 1 {
+            get_and_show(hd, n, &mut vars, &mut ops, &mut oracle, &mut labels, &mut tags, &mut disk_checks, true);
+        }
+    }
+    // shape of the FIELD lists
+    for hd in &hs {
+        tags.push(format!("fields.lists-on-handle.{}", hd.lists.len()));
+        let mut seen: HashMap<u8, (usize, usize, usize)> = HashMap::new(); // var -> (list, offset, width)
+        let (mut shared, mut moved, mut dup, mut short) = (false, false, false, false);
+        for (li, l) in hd.lists.iter().enumerate() {
+            let mut start = 0usize;
+            for (w, v) in l {
+                if let Some((lj, o, ww)) = seen.get(v) {
+                    if *lj == li {
+                        dup = true;
+                    } else {
+                        shared = true;
+                        if *o != start || *ww != *w as usize {
+                            moved = true;
+                        }
+                    }
+                }
+                seen.insert(*v, (li, start, *w as usize));
+                start += *w as usize;
+            }
+            if start < hd.len {
+                short = true;
+            }
+        }
+        if hd.lists.len() >= 2 {
+            tags.push("fields.overlapping-lists".into());
+        }
+        if shared {
+            tags.push("fields.variable-in-two-lists".into());
+        }
+        if moved {
+            tags.push("fields.variable-in-two-lists-other-slice".into());
+        }
+        if dup {
+            tags.push("fields.variable-twice-in-one-list".into());
+        }
+        if short {
+            tags.push("fields.list-shorter-than-record".into());
+        }
+    }
+    if hs.len() > 1 {
+        tags.push("fields.two-handles".into());
+    }
+    let mut entries: Vec<(u32, String)> = hs.iter().map(|hd| (hd.name as u32, bytes_str(&hd.file))).collect();
+    entries.sort();
+    let oracle_listing = entries.iter().map(|(k, b)| format!("{}={}", k, b)).collect::<Vec<_>>().join(";");
+    Some(Case {
+        family: plan.family,
+        init: vec![],
+        stdin: vec![],
+        ops,
+        trap: false,
+        oracle,
+        oracle_listing: Some(oracle_listing),
+        labels,
+        tags,
+        disk_checks,
+        plan: Some(plan.clone()),
+    })
+}
+
+/// Bytes of file `k` in a listing `k=b b b;k=d;...`.
+fn listing_file(listing: &str, k: u8) -> Option<Vec<u8>> {
+    for e in listing.split(';') {
+        if let Some((kk, body)) = e.split_once('=') {
+            if kk == k.to_string() && body != "d" && !body.starts_with("unexpected") {
+                return Some(body.split_whitespace().filter_map(|x| x.parse().ok()).collect());
+            }
+        }
+    }
+    None
+}
+
+/// The property check of a FIELD-family case: `(signature, what the code did, what was expected)`.
+fn fields_violation(case: &Case, run: &ImplRun) -> Option<(String, String, String)> {
+    let fam = case.family;
+    if let Some(p) = &run.problem {
+        let sig = if p == "panic" { "panic".to_owned() } else { "front-end".to_owned() };
+        return Some((sig, p.clone(), "a result".into()));
+    }
+    let result = run.result.unwrap();
+    if result.is_some() || run.blocks.len() != case.ops.len() || !run.tail.is_empty() {
+        let at = run.blocks.len().min(case.ops.len() - 1);
+        return Some((
+            format!("property:{}:error:{}", fam, case.ops[at].tag()),
+            format!("op {} ({}) ended the program with {:?}", at + 1, case.ops[at].sexp(), result),
+            "every operation of the history succeeds".into(),
+        ));
+    }
+    for i in 0..case.ops.len() {
+        if let Some(want) = &case.oracle[i] {
+            if !block_matches(&case.ops[i], &run.blocks[i], want) {
+                return Some((
+                    format!("property:{}:{}", fam, case.labels[i]),
+                    format!("op {} ({}) printed {:?}", i + 1, case.ops[i].sexp(), String::from_utf8_lossy(&run.blocks[i])),
+                    format!("{:?}", String::from_utf8_lossy(&render(want))),
+                ));
+            }
+        }
+    }
+    for (i, k, off, w) in &case.disk_checks {
+        let file = listing_file(&run.listing, *k).unwrap_or_default();
+        let want: Vec<u8> = (0..*w).map(|j| file.get(off + j).copied().unwrap_or(0)).collect();
+        if !block_matches(&case.ops[*i], &run.blocks[*i], &out_v(&want)) {
+            return Some((
+                format!("property:{}:get-vs-disk", fam),
+                format!("op {} ({}) printed {:?}", i + 1, case.ops[*i].sexp(), String::from_utf8_lossy(&run.blocks[*i])),
+                format!("{:?} = bytes {}..{} of {} on disk after the run", String::from_utf8_lossy(&render(&out_v(&want))), off, off + w, file_name(Nm::P(*k))),
+            ));
+        }
+    }
+    if let Some(want) = &case.oracle_listing {
+        if *want != run.listing {
+            return Some((format!("property:{}:disk", fam), run.listing.clone(), want.clone()));
+        }
+    }
+    None
+}
+
+/// Greedy shrinking of a failing FIELD-family plan: drop steps (then lower record numbers, drop unused
+/// handles) while the same signature keeps failing.  Runs the real code in `dir` (the current directory).
+fn shrink_fields(dir: &PathBuf, plan: &FPlan, sig: &str) -> FPlan {
+    let fails = |p: &FPlan| -> bool {
+        match build_fields_case(p) {
+            None => false,
+            Some(c) => {
+                let run = run_impl(dir, &c.init, &c.stdin, &c.ops, c.trap);
+                fields_violation(&c, &run).is_some_and(|v| v.0 == sig)
+            }
+        }
+    };
+    let mut cur = plan.clone();
+    let mut budget = 400;
+    loop {
+        let mut changed = false;
+        let mut i = 0;
+        while i < cur.acts.len() && budget > 0 {
+            let mut cand = cur.clone();
+            cand.acts.remove(i);
+            budget -= 1;
+            if fails(&cand) {
+                cur = cand;
+                changed = true;
+            } else {
+                i += 1;
+            }
+        }
+        for i in 0..cur.acts.len() {
+            if budget == 0 {
+                break;
+            }
+            let mut cand = cur.clone();
+            let lowered = match &mut cand.acts[i] {
+                FAct::Put { n, .. } | FAct::Get { n, .. } if *n > 1 => {
+                    *n -= 1;
+                    true
+                }
+                FAct::Lset { val, .. } if val.len() > 1 => {
+                    val.pop();
+                    true
+                }
+                _ => false,
+            };
+            if lowered {
+                budget -= 1;
+                if fails(&cand) {
+                    cur = cand;
+                    changed = true;
+                }
+            }
+        }
+        for i in 0..cur.handles.len() {
+            if cur.handles.len() > 1 && budget > 0 {
+                let mut cand = cur.clone();
+                let h = cand.handles.remove(i).0;
+                cand.acts.retain(|a| !matches!(a, FAct::Field { h: x, .. } | FAct::Put { h: x, .. } | FAct::Get { h: x, .. } if *x == h));
+                budget -= 1;
+                if fails(&cand) {
+                    cur = cand;
+                    changed = true;
+                    break;
+                }
+            }
+        }
+        if !changed || budget == 0 {
+            return cur;
+        }
+    }
+}
+
+/// Values that make a misplaced slice visible: consecutive characters of a long cycle.
+struct Fresh(usize);
+
+impl Fresh {
+    fn take(&mut self, n: usize) -> Vec<u8> {
+        const CYCLE: &[u8] = b"ABCDEFGHIJKLMNOPQRSTUVWXYZabcdefghijklmnopqrstuvwxyz0123456789#%&*+-/<=>?@";
+        (0..n)
+            .map(|_| {
+                let c = CYCLE[self.0 % CYCLE.len()];
+                self.0 += 1;
+                c
+            })
+            .collect()
+    }
+}
+
+/// The shapes of the exhaustive family, record length 4: the whole record; a 1+3 split; a short list that
+/// shares its variable with the split (same offset, other width); a 2+2 split that uses the variables of the
+/// 1+3 split at other offsets; the same variable twice in one list.
+fn field_shapes() -> Vec<Vec<(u32, u8)>> {
+    vec![vec![(4, 0)], vec![(1, 1), (3, 2)], vec![(2, 1)], vec![(2, 2), (2, 1)], vec![(2, 3), (2, 3)]]
+}
+
+/// One step of the exhaustive family's alphabet.
+#[derive(Clone, Copy, Debug)]
+enum FStep {
+    /// LSET every variable of list `i` (0 / 1 = the first / second FIELD statement), then PUT record `n`
+    Fill(usize, u32),
+    Get(u32),
+    /// `FIELD #1, 2 AS V1$` issued again in the middle
+    Refield,
+}
+
+fn exhaustive_field_plans(max_len: usize, f: &mut dyn FnMut(FPlan)) {
+    let shapes = field_shapes();
+    let alphabet =
+        [FStep::Fill(0, 1), FStep::Fill(0, 2), FStep::Fill(1, 1), FStep::Fill(1, 2), FStep::Get(1), FStep::Get(2), FStep::Refield];
+    for a in 0..shapes.len() {
+        for b in 0..shapes.len() {
+            if a == b {
+                continue;
+            }
+            let mut seqs: Vec<Vec<FStep>> = vec![];
+            enumerate_steps(&alphabet, max_len, &mut seqs);
+            for seq in seqs {
+                let mut fresh = Fresh(0);
+                let lists = [shapes[a].clone(), shapes[b].clone()];
+                let mut acts = vec![FAct::Field { h: 1, list: lists[0].clone() }, FAct::Field { h: 1, list: lists[1].clone() }];
+                for st in &seq {
+                    match st {
+                        FStep::Fill(i, n) => {
+                            for (w, v) in &lists[*i] {
+                                acts.push(FAct::Lset { v: *v, val: fresh.take(*w as usize) });
+                            }
+                            acts.push(FAct::Put { h: 1, n: *n });
+                        }
+                        FStep::Get(n) => acts.push(FAct::Get { h: 1, n: *n }),
+                        FStep::Refield => acts.push(FAct::Field { h: 1, list: shapes[2].clone() }),
+                    }
+                }
+                f(FPlan { family: "fields-enum", handles: vec![(1, 0, 4)], acts });
+            }
+        }
+    }
+}
+
+fn enumerate_steps(alphabet: &[FStep], max_len: usize, out: &mut Vec<Vec<FStep>>) {
+    fn go(alphabet: &[FStep], max_len: usize, cur: &mut Vec<FStep>, out: &mut Vec<Vec<FStep>>) {
+        if !cur.is_empty() {
+            out.push(cur.clone());
+        }
+        if cur.len() == max_len {
+            return;
+        }
+        for s in alphabet {
+            cur.push(*s);
+            go(alphabet, max_len, cur, out);
+            cur.pop();
+        }
+    }
+    go(alphabet, max_len, &mut vec![], out);
+}
+
+/// A random FIELD list for a record of `len` bytes over the variables `pool`.
+fn random_field_list(rng: &mut Rng, len: u32, pool: &[u8]) -> Vec<(u32, u8)> {
+    let total = if rng.chance(3, 5) { len } else { rng.range(1, len as i64) as u32 };
+    let k = rng.range(1, 3.min(total as i64)) as u32;
+    // k positive widths that add up to `total`
+    let mut cuts: Vec<u32> = vec![];
+    while (cuts.len() as u32) < k - 1 {
+        let c = rng.range(1, total as i64 - 1) as u32;
+        if !cuts.contains(&c) {
+            cuts.push(c);
+        }
+    }
+    cuts.sort();
+    cuts.push(total);
+    let mut prev = 0;
+    cuts.iter()
+        .map(|c| {
+            let w = c - prev;
+            prev = *c;
+            (w, *rng.pick(pool))
+        })
+        .collect()
+}
+
+fn random_field_plan(rng: &mut Rng) -> FPlan {
+    let mut fresh = Fresh(rng.below(70) as usize);
+    let two = rng.chance(1, 5);
+    let mut handles: Vec<(u32, u8, u32)> = vec![(rng.range(1, 3) as u32, 0, *rng.pick(&[2u32, 3, 4, 4, 6, 8, 12]))];
+    if two {
+        let h2 = (1..=3u32).find(|h| *h != handles[0].0).unwrap();
+        handles.push((h2, 1, *rng.pick(&[2u32, 4, 5])));
+    }
+    let pools: [&[u8]; 2] = [&[0, 1, 2, 3, 4], &[5, 6, 7]];
+    let mut lists: Vec<Vec<Vec<(u32, u8)>>> = vec![vec![]; handles.len()];
+    let mut acts: Vec<FAct> = vec![];
+    let field = |rng: &mut Rng, acts: &mut Vec<FAct>, lists: &mut Vec<Vec<Vec<(u32, u8)>>>, i: usize| {
+        let l = random_field_list(rng, handles[i].2, pools[i]);
+        lists[i].push(l.clone());
+        acts.push(FAct::Field { h: handles[i].0, list: l });
+    };
+    for i in 0..handles.len() {
+        let n = if i == 0 { *rng.pick(&[1, 2, 2, 2, 3, 3]) } else { rng.range(1, 2) };
+        for _ in 0..n {
+            field(rng, &mut acts, &mut lists, i);
+        }
+    }
+    for _ in 0..rng.range(3, 12) {
+        let i = if two && rng.chance(1, 3) { 1 } else { 0 };
+        let h = handles[i].0;
+        let n = *rng.pick(&[1u32, 1, 2, 2, 3, 4]);
+        match rng.below(11) {
+            0..=3 => {
+                // fill one list, PUT
+                let l = rng.pick(&lists[i]).clone();
+                for (w, v) in &l {
+                    let len = match rng.below(8) {
+                        0 => w.saturating_sub(1),
+                        1 => w + 1,
+                        _ => *w,
+                    };
+                    acts.push(FAct::Lset { v: *v, val: fresh.take(len as usize) });
+                }
+                acts.push(FAct::Put { h, n });
+            }
+            4 | 5 => {
+                let l = rng.pick(&lists[i]).clone();
+                let (w, v) = *rng.pick(&l);
+                acts.push(FAct::Lset { v, val: fresh.take(rng.range(0, w as i64 + 1) as usize) });
+            }
+            6 => acts.push(FAct::Put { h, n }),
+            7..=9 => acts.push(FAct::Get { h, n }),
+            _ => {
+                if lists[i].len() < 4 {
+                    field(rng, &mut acts, &mut lists, i);
+                } else {
+                    acts.push(FAct::Get { h, n });
+                }
+            }
+        }
+    }
+    FPlan { family: "fields-random", handles, acts }
+}
+
 fn build_cases(rng: &mut Rng, thorough: bool, parts: &mut Vec<String>) -> (Vec<Case>, Vec<(usize, usize)>) {
     let mut cases: Vec<Case> = vec![];
 
@@ -859,13 +1451,13 @@ fn build_cases(rng: &mut Rng, thorough: bool, parts: &mut Vec<String>) -> (Vec<C
     enumerate(&text_alphabet(), max_len, &mut |ops| {
         n_text += 1;
         let oracle = protocol_reference(&base_init, &ops);
-        cases.push(Case { family: "enum-text", init: base_init.clone(), stdin: vec![], ops, trap: true, oracle, oracle_listing: None });
+        cases.push(Case { family: "enum-text", init: base_init.clone(), stdin: vec![], ops, trap: true, oracle, oracle_listing: None, ..Default::default() });
     });
     let mut n_rand = 0u64;
     enumerate(&random_alphabet(), max_len, &mut |ops| {
         n_rand += 1;
         let oracle = protocol_reference(&vec![], &ops);
-        cases.push(Case { family: "enum-random", init: vec![], stdin: vec![], ops, trap: false, oracle, oracle_listing: None });
+        cases.push(Case { family: "enum-random", init: vec![], stdin: vec![], ops, trap: false, oracle, oracle_listing: None, ..Default::default() });
     });
     parts.push(format!(
         "all {} histories of length 1..{} over the 12-operation text alphabet (2 handles, A.TXT/B.TXT; errors trapped, run continues)",
@@ -902,6 +1494,7 @@ fn build_cases(rng: &mut Rng, thorough: bool, parts: &mut Vec<String>) -> (Vec<C
             trap,
             oracle,
             oracle_listing: None,
+            ..Default::default()
         });
     }
 
@@ -914,6 +1507,29 @@ fn build_cases(rng: &mut Rng, thorough: bool, parts: &mut Vec<String>) -> (Vec<C
     for _ in 0..n_shape {
         let c = put_get_case(rng);
         cases.push(c);
+    }
+    // several FIELD lists on one RANDOM handle: exhaustive small family + random family
+    let field_len = if thorough { 4 } else { 3 };
+    let mut n_fields = 0u64;
+    exhaustive_field_plans(field_len, &mut |plan| {
+        if let Some(c) = build_fields_case(&plan) {
+            n_fields += 1;
+            cases.push(c);
+        }
+    });
+    parts.push(format!(
+        "all {} histories OPEN FOR RANDOM LEN=4; FIELD a; FIELD b; s1..sk (k = 1..{}) for every ordered pair a != b of the five \
+         FIELD shapes (whole record / 1+3 / short 2 sharing a variable / 2+2 with the variables of 1+3 swapped / one variable twice) \
+         and steps over {{LSET all of list 1|2 + PUT 1|2, GET 1|2 + print every variable of every list, FIELD the short list again}}, \
+         each followed by GET of records 1..3 with every variable printed and compared with the bytes on disk",
+        n_fields, field_len
+    ));
+    let n_field_random = if thorough { 40_000 } else { 2_500 };
+    for _ in 0..n_field_random {
+        let plan = random_field_plan(rng);
+        if let Some(c) = build_fields_case(&plan) {
+            cases.push(c);
+        }
     }
     // close makes reusable: after CLOSE h / CLOSE every handle can be opened again
     for h in 1..=3u32 {
@@ -937,6 +1553,7 @@ fn build_cases(rng: &mut Rng, thorough: bool, parts: &mut Vec<String>) -> (Vec<C
                     trap: true,
                     oracle,
                     oracle_listing: None,
+                    ..Default::default()
                 });
             }
         }
@@ -958,6 +1575,7 @@ fn build_cases(rng: &mut Rng, thorough: bool, parts: &mut Vec<String>) -> (Vec<C
             ops: con_ops,
             trap: true,
             oracle_listing: None,
+            ..Default::default()
         });
         cases.push(Case {
             family: "console-file-form",
@@ -967,6 +1585,7 @@ fn build_cases(rng: &mut Rng, thorough: bool, parts: &mut Vec<String>) -> (Vec<C
             ops: file_ops,
             trap: true,
             oracle_listing: None,
+            ..Default::default()
         });
         console_pairs.push((a, a + 1));
     }
@@ -1117,12 +1736,55 @@ fn main() {
         for op in &case.ops {
             rep.bump(&format!("op.{}", op.tag()));
         }
+        for t in &case.tags {
+            rep.bump(t);
+        }
         if rep.samples.len() < 6 && !trivial && case.ops.len() >= 4 {
             rep.sample(J::s(format!("{} => model {}", case.describe(), answer)));
         }
         let fail = |rep: &mut Report, kind: Kind, sig: String, implementation: String, expected: String, note: &str| {
             rep.fail(Failure { kind, signature: sig, input: case.describe(), implementation, expected, note: note.to_owned() });
         };
+        if let Some(plan) = &case.plan {
+            // FIELD families: the property check is `fields_violation`; a failing history is shrunk first
+            if let Some((sig, implementation, expected)) = fields_violation(case, run) {
+                let shrunk_before = rep.failures.iter().filter(|f| f.signature == sig).count();
+                let mut input = case.describe();
+                let (mut implementation, mut expected) = (implementation, expected);
+                if shrunk_before < 3 {
+                    let dir = work_dir().join("c18-scratch-shrink");
+                    let _ = std::fs::remove_dir_all(&dir);
+                    std::fs::create_dir_all(&dir).expect("scratch dir");
+                    std::env::set_current_dir(&dir).expect("chdir scratch");
+                    let small = shrink_fields(&dir, plan, &sig);
+                    if let Some(c) = build_fields_case(&small) {
+                        let r = run_impl(&dir, &c.init, &c.stdin, &c.ops, c.trap);
+                        if let Some(v) = fields_violation(&c, &r) {
+                            if v.0 == sig {
+                                input = format!("(shrunk from a history of {} operations) {}", case.ops.len(), c.describe());
+                                implementation = v.1;
+                                expected = v.2;
+                            }
+                        }
+                    }
+                    let _ = std::env::set_current_dir(std::env::temp_dir());
+                    let _ = std::fs::remove_dir_all(&dir);
+                }
+                rep.fail(Failure {
+                    kind: Kind::ImplVsProperty,
+                    signature: sig,
+                    input,
+                    implementation,
+                    expected,
+                    note: "several FIELD lists on a RANDOM handle: after GET #h, n every variable of every FIELD list holds the bytes of \
+                           record n at its offset and width, as last PUT (reference: record table in the harness; closing pass: the bytes on disk)"
+                        .into(),
+                });
+                if run.problem.is_some() {
+                    continue;
+                }
+            }
+        }
         if let Some(p) = &run.problem {
             let sig = if p == "panic" { "panic".to_owned() } else { "front-end".to_owned() };
             fail(&mut rep, Kind::ImplVsProperty, sig, p.clone(), "a result".into(), "misuse must be reported as a BASIC error, never a panic");
@@ -1165,8 +1827,8 @@ fn main() {
             );
             continue;
         }
-        // (a) against the property oracles
-        for i in 0..complete {
+        // (a) against the property oracles (the FIELD families were checked above)
+        for i in 0..(if case.plan.is_some() { 0 } else { complete }) {
             if let Some(want) = &case.oracle[i] {
                 if !block_matches(&case.ops[i], &run.blocks[i], want) {
                     fail(
@@ -1195,7 +1857,7 @@ fn main() {
                 }
             }
         }
-        if !case.trap && complete < case.ops.len() {
+        if !case.trap && complete < case.ops.len() && case.plan.is_none() {
             if let Some(want) = &case.oracle[complete] {
                 let got = format!("e{}", result.unwrap());
                 if *want != got {
@@ -1210,7 +1872,7 @@ fn main() {
                 }
             }
         }
-        if let Some(want) = &case.oracle_listing {
+        if let Some(want) = case.oracle_listing.as_ref().filter(|_| case.plan.is_none()) {
             if *want != run.listing {
                 fail(
                     &mut rep,
